@@ -103,12 +103,11 @@ def run(F, R, ctx):
                "Gc::%s no longer delegates to the uniqueness-checked accessor of the shared pointer (calls: %s)" % (
                    nm, [lib.short_name(c) for c in dele]), fn.loc(), sample=True)
     hu = F.one(r"^steel_rc::\{impl RcBox<T>\}::has_unique_ref$")
-    cmp1 = [e for _, _, e in hu.events("binop") if e[1] == "Eq" and e[2] == "u32" and "const:1" in (e[5], e[6])]
-    cmp0 = [e for _, _, e in hu.events("binop") if e[1] in ("Ne", "Eq") and e[2] == "i32" and "const:0" in (e[5], e[6])]
     setc = [b["args"] for _, b in hu.calls() if re.search(r"\{impl Packed\}::set_counter$", b["callee"])]
-    R.inst("C03.b", "has_unique_ref / owner branch: local count == 1 and shared count == 0", bool(cmp1) and bool(cmp0) and
-           bool(hu.call_blocks(r"\{impl Packed\}::get_counter$")),
-           "RcBox::has_unique_ref no longer compares the owner counter with 1 and the shared counter with 0", hu.loc(), sample=True)
+    okb, why = c05.owner_branch_checks_shared(hu)
+    R.inst("C03.b", "has_unique_ref / owner branch: local count == 1 and shared count == 0", okb,
+           "RcBox::has_unique_ref: %s — Gc::get_mut / make_mut then hand out &mut to a value another thread still holds" % why,
+           hu.loc(), sample=True)
     R.inst("C03.b", "has_unique_ref / merged branch: compare_exchange(count 1 -> 0)",
            bool(hu.call_blocks(r"\{impl SharedPacked\}::compare_exchange$")) and
            any("const:1" in a for a in setc) and any("const:0" in a for a in setc),
